@@ -35,6 +35,17 @@ pub enum T01 {
     DeepWide,
     /// Vec<()>: a sequence driven by a loop whose elements consume (or fail to consume) one unit each
     UnitSeq,
+    /// Vec<NoOp>: a sequence of elements that read nothing
+    NoOpSeq,
+    /// Vec<Option<Single>>: `Single` is a `{name: value}` type whose map visitor asks for one entry and returns
+    UnderReadSeq,
+    /// BTreeMap<String, NoOp>
+    NoOpMap,
+    /// a map visitor that asks for a value without having asked for a key (serde allows the access to
+    /// answer with an error or nonsense; the statement allows it no panic)
+    ValueFirst,
+    /// an enum visitor that takes the variant name and drops the variant access
+    VariantNameOnly,
 }
 
 macro_rules! wide_struct {
@@ -55,12 +66,102 @@ wide_struct!(
     f29, f30, f31, f32, f33
 );
 
+thread_local! {
+    /// calls of the probe types' `Deserialize` impls in the current case: the deterministic liveness monitor
+    /// for loops that offer the same node to an element for ever
+    static PROBE_CALLS: std::cell::Cell<u64> = const { std::cell::Cell::new(0) };
+}
+
+fn probe_step(who: &str) {
+    let n = PROBE_CALLS.with(|c| {
+        c.set(c.get() + 1);
+        c.get()
+    });
+    if n > 3_000_000 {
+        PROBE_CALLS.with(|c| c.set(0));
+        std::panic::panic_any(crate::io::SimMarker::Liveness(format!("{who}: Deserialize impl called {n} times in one case")));
+    }
+}
+
 /// serde allows a `Deserialize` impl to ignore its input; the entry points must still terminate.
 #[derive(Debug)]
 struct NoOpT;
 impl<'de> Deserialize<'de> for NoOpT {
     fn deserialize<D: serde::Deserializer<'de>>(_d: D) -> Result<Self, D::Error> {
+        probe_step("no-op element");
         Ok(NoOpT)
+    }
+}
+
+/// `{name: value}`: the map visitor asks for one entry and returns (serde_json reads this type).
+#[derive(Debug)]
+#[allow(dead_code)]
+struct Single(String, i64);
+impl<'de> Deserialize<'de> for Single {
+    fn deserialize<D: serde::Deserializer<'de>>(d: D) -> Result<Self, D::Error> {
+        struct V;
+        impl<'de> serde::de::Visitor<'de> for V {
+            type Value = Single;
+            fn expecting(&self, f: &mut std::fmt::Formatter) -> std::fmt::Result {
+                f.write_str("a one-entry mapping")
+            }
+            fn visit_map<A: serde::de::MapAccess<'de>>(self, mut a: A) -> Result<Single, A::Error> {
+                match a.next_entry::<String, i64>()? {
+                    Some((k, v)) => Ok(Single(k, v)),
+                    None => Err(serde::de::Error::custom("empty mapping")),
+                }
+            }
+        }
+        probe_step("under-reading map visitor");
+        d.deserialize_map(V)
+    }
+}
+
+#[derive(Debug)]
+#[allow(dead_code)]
+struct ValueFirstT(Option<i64>);
+impl<'de> Deserialize<'de> for ValueFirstT {
+    fn deserialize<D: serde::Deserializer<'de>>(d: D) -> Result<Self, D::Error> {
+        struct V;
+        impl<'de> serde::de::Visitor<'de> for V {
+            type Value = ValueFirstT;
+            fn expecting(&self, f: &mut std::fmt::Formatter) -> std::fmt::Result {
+                f.write_str("a mapping")
+            }
+            fn visit_map<A: serde::de::MapAccess<'de>>(self, mut a: A) -> Result<ValueFirstT, A::Error> {
+                let v = a.next_value::<i64>().ok();
+                while let Ok(Some(_)) = a.next_key::<serde::de::IgnoredAny>() {
+                    if a.next_value::<serde::de::IgnoredAny>().is_err() {
+                        break;
+                    }
+                }
+                let _ = a.next_value::<i64>();
+                Ok(ValueFirstT(v))
+            }
+        }
+        probe_step("value-first map visitor");
+        d.deserialize_map(V)
+    }
+}
+
+#[derive(Debug)]
+#[allow(dead_code)]
+struct VariantNameT(String);
+impl<'de> Deserialize<'de> for VariantNameT {
+    fn deserialize<D: serde::Deserializer<'de>>(d: D) -> Result<Self, D::Error> {
+        struct V;
+        impl<'de> serde::de::Visitor<'de> for V {
+            type Value = VariantNameT;
+            fn expecting(&self, f: &mut std::fmt::Formatter) -> std::fmt::Result {
+                f.write_str("an enum")
+            }
+            fn visit_enum<A: serde::de::EnumAccess<'de>>(self, a: A) -> Result<VariantNameT, A::Error> {
+                let (name, _access) = a.variant::<String>()?;
+                Ok(VariantNameT(name))
+            }
+        }
+        probe_step("variant-name-only enum visitor");
+        d.deserialize_enum("E", &["A", "B", "U", "N", "T", "S"], V)
     }
 }
 
@@ -151,6 +252,9 @@ pub struct TotalCase {
     /// one Ok(0) at this offset, then the stream goes on
     #[serde(default)]
     pub nonsticky_eof_at: Option<usize>,
+    /// the reader reports its end once and blocks for ever when polled again
+    #[serde(default)]
+    pub blocks_after_eof: bool,
     /// 0: T::deserialize, 1: closure ignores the deserializer, 2: IgnoredAny, 3: stops after the first element
     pub closure_mode: u8,
     /// what kind of case this is (informational)
@@ -168,6 +272,7 @@ fn script(c: &TotalCase) -> ReaderScript {
         chunking: Some(c.chunking.clone()),
         faults: c.faults.clone(),
         nonsticky_eof_at: c.nonsticky_eof_at,
+        blocks_after_eof: c.blocks_after_eof,
         ..Default::default()
     }
 }
@@ -527,6 +632,7 @@ pub fn exec(c: &TotalCase, st: &mut Stats) -> Vec<Viol> {
     // every returned error is also turned into a miette report over the delivered text
     lab::set_render_source(Some(String::from_utf8_lossy(&c.bytes.0).into_owned()));
     let _source = SourceGuard;
+    PROBE_CALLS.with(|c| c.set(0));
     let mut obs = match c.target {
         T01::Fam(t) => crate::with_target!(t, run_owned(c, st)),
         T01::DeepSeq => run_owned::<L>(c, st),
@@ -538,6 +644,11 @@ pub fn exec(c: &TotalCase, st: &mut Stats) -> Vec<Viol> {
         T01::NoOp => run_owned::<NoOpT>(c, st),
         T01::DeepWide => run_owned::<W>(c, st),
         T01::UnitSeq => run_owned::<Vec<()>>(c, st),
+        T01::NoOpSeq => run_owned::<Vec<NoOpT>>(c, st),
+        T01::UnderReadSeq => run_owned::<Vec<Option<Single>>>(c, st),
+        T01::NoOpMap => run_owned::<std::collections::BTreeMap<String, NoOpT>>(c, st),
+        T01::ValueFirst => run_owned::<ValueFirstT>(c, st),
+        T01::VariantNameOnly => run_owned::<Vec<VariantNameT>>(c, st),
     };
     if matches!(c.target, T01::Fam(Target::Cfg)) {
         obs.extend(run_valid(c));
@@ -826,7 +937,13 @@ pub fn total(tier: Tier) -> u64 {
         }
 }
 
-const ALL_T01: [T01; 9] = [
+const ALL_T01: [T01; 15] = [
+    T01::NoOpSeq,
+    T01::UnderReadSeq,
+    T01::NoOpMap,
+    T01::ValueFirst,
+    T01::VariantNameOnly,
+    T01::UnitSeq,
     T01::DeepSeq,
     T01::DeepMap,
     T01::DeepEnum,
@@ -850,6 +967,7 @@ pub fn gen_case(tier: Tier, seed: u64, idx: u64) -> Case {
             chunking: Chunking::Whole,
             faults: vec![],
             nonsticky_eof_at: None,
+            blocks_after_eof: false,
             closure_mode: 0,
             origin: "deep kind=11 depth=1999 wide-struct".to_string(),
         });
@@ -870,6 +988,7 @@ pub fn gen_case(tier: Tier, seed: u64, idx: u64) -> Case {
             chunking: if i % 2 == 0 { Chunking::Whole } else { Chunking::Fixed(4096) },
             faults: vec![],
             nonsticky_eof_at: None,
+            blocks_after_eof: false,
             closure_mode: 0,
             origin: format!("deep kind={kind} depth={depth}"),
         });
@@ -884,6 +1003,7 @@ pub fn gen_case(tier: Tier, seed: u64, idx: u64) -> Case {
             chunking: Chunking::Fixed(7),
             faults: vec![],
             nonsticky_eof_at: None,
+            blocks_after_eof: false,
             closure_mode: 0,
             origin,
         });
@@ -897,14 +1017,15 @@ pub fn gen_case(tier: Tier, seed: u64, idx: u64) -> Case {
         _ => Target::Json,
     };
     let mut origin = Vec::new();
-    let pick = rng.below(21);
+    let pick = rng.below(23);
     // `!!binary` payloads go to the targets that decode them, validation documents to the validated struct
     let (target, fam) = match pick {
         12 => {
             let t = *rng.pick(&[T01::Bytes, T01::Fam(Target::Json), T01::Fam(Target::Str), T01::Fam(Target::VecS), T01::Fam(Target::Map)]);
             (t, if let T01::Fam(f) = t { f } else { Target::Json })
         }
-        13 | 17 => (T01::Fam(Target::Cfg), Target::Cfg),
+        13 | 17 | 22 => (T01::Fam(Target::Cfg), Target::Cfg),
+        21 => (*rng.pick(&[T01::NoOpSeq, T01::UnderReadSeq, T01::NoOpMap, T01::ValueFirst, T01::VariantNameOnly, T01::NoOp, T01::UnitSeq]), Target::Json),
         16 => {
             let t = *rng.pick(&[
                 T01::Fam(Target::Unit),
@@ -975,6 +1096,53 @@ pub fn gen_case(tier: Tier, seed: u64, idx: u64) -> Case {
         16 => {
             origin.push("tagged".to_string());
             tagged_doc(&mut rng)
+        }
+        21 => {
+            origin.push("probe-docs".to_string());
+            // small documents for the under-reading / no-op / out-of-order probe types: sequences of mappings,
+            // null-like nodes, enum forms
+            const DOCS: [&str; 22] = [
+                "- a: 1\n- b: 2\n",
+                "[{a: 1}, {b: 2, c: 3}]\n",
+                "- x\n- y\n",
+                "- [1, 2]\n- {k: [v]}\n- ~\n",
+                "~\n",
+                "",
+                "# only a comment\n",
+                "!!null\n",
+                "null\n",
+                "f: ~\n",
+                "{}\n",
+                "{a: 1}\n",
+                "a: 1\nb: 2\n",
+                "- A\n- B: 1\n- {N: 5}\n- T: [1, 2]\n",
+                "- !A 1\n- !B\n",
+                "- &x {a: 1, b: 2}\n- *x\n",
+                "k: &x [1]\nj: *x\n",
+                "- <<: {a: 1}\n  b: 2\n",
+                "[]\n",
+                "- - a: 1\n  - b: 2\n",
+                "a: 1\n---\n- b: 2\n- c: 3\n---\n~\n",
+                "? [complex]\n: 1\n",
+            ];
+            let mut t = rng.pick(&DOCS).to_string();
+            if rng.chance(1, 3) {
+                t.push_str("---\n");
+                t.push_str(*rng.pick(&DOCS));
+            }
+            t
+        }
+        22 => {
+            origin.push("far-right-dual-location".to_string());
+            // an error with two locations whose "defined here" marker lies beyond column 65535 (reached by a
+            // flow mapping on one line; cropping switched off by a huge radius, or on)
+            let n = *rng.pick(&[65_520usize, 65_536, 70_000, 140_000]);
+            let pad = if rng.chance(1, 2) { "a".repeat(n) } else { "é".repeat(n) };
+            match rng.below(3) {
+                0 => format!("{{ name: \"{pad}\", flag: &x true, n: *x }}\n"),
+                1 => format!("{{ name: \"{pad}\", n: 1, zzz: [1, 2] }}\n"),
+                _ => format!("name: &l [\"{pad}\"]\nn: *l\n"),
+            }
         }
         19 => {
             origin.push("long-line-error".to_string());
@@ -1093,6 +1261,11 @@ pub fn gen_case(tier: Tier, seed: u64, idx: u64) -> Case {
     }
     let nonsticky = if rng.chance(1, 12) { Some(rng.below(bytes.len() + 1)) } else { None };
     let mut opts = if rng.chance(1, 2) { OptVec::default() } else { OptVec::random(&mut rng) };
+    if pick == 22 {
+        // cropping switched off the natural way, or left as it is
+        opts.crop_radius = *rng.pick(&[65_536usize, 100_000, usize::MAX, 64, 70_000]);
+        opts.with_snippet = true;
+    }
     if rng.chance(1, 8) {
         // tight budget / alias limits
         let mut b = serde_saphyr::Budget::default();
@@ -1135,8 +1308,9 @@ pub fn gen_case(tier: Tier, seed: u64, idx: u64) -> Case {
         target,
         opts,
         chunking,
-        faults,
+        faults: faults.clone(),
         nonsticky_eof_at: nonsticky,
+        blocks_after_eof: faults.is_empty() && nonsticky.is_none() && rng.chance(1, 3),
         closure_mode: rng.below(4) as u8,
         origin: origin.join("+"),
     })
@@ -1154,6 +1328,11 @@ pub fn shrink(c: &TotalCase) -> Vec<Case> {
     if c.nonsticky_eof_at.is_some() {
         let mut n = c.clone();
         n.nonsticky_eof_at = None;
+        out.push(Case::C01(n));
+    }
+    if c.blocks_after_eof {
+        let mut n = c.clone();
+        n.blocks_after_eof = false;
         out.push(Case::C01(n));
     }
     if c.chunking != Chunking::Whole {
